@@ -73,7 +73,7 @@ enum Mode {
 // ------------------------------------------------------------------------------------------
 // option vectors
 
-const N_OPTS: u8 = 7;
+const N_OPTS: u8 = 15;
 fn opts_of(i: u8) -> DeOpts {
     let d = DeOpts::default();
     let small = |f: &dyn Fn(&mut BudgetD)| {
@@ -88,7 +88,15 @@ fn opts_of(i: u8) -> DeOpts {
         3 => DeOpts { strict_bool: true, legacy_octal: true, dup: Dup::First, ..d },
         4 => DeOpts { budget: small(&|b| b.max_nodes = 6), ..d },
         5 => DeOpts { budget: small(&|b| { b.max_depth = 2; b.max_total_scalar_bytes = 24 }), crop: 0, ..d },
-        _ => DeOpts { no_schema: true, ..d },
+        6 => DeOpts { no_schema: true, ..d },
+        // limits close to what short documents use: every entry point must draw the line at
+        // the same event / document
+        7..=12 => {
+            let e = [5usize, 7, 8, 9, 11, 14][(i % N_OPTS - 7) as usize];
+            DeOpts { budget: small(&|b| b.max_events = e), ..d }
+        }
+        13 => DeOpts { budget: small(&|b| b.max_documents = 1), ..d },
+        _ => DeOpts { budget: small(&|b| { b.max_documents = 2; b.max_anchors = 1; b.max_aliases = 1 }), ..d },
     }
 }
 
@@ -856,12 +864,12 @@ fn check_lend(d: &BDoc, sched: &Sched) -> Outcome {
 // ------------------------------------------------------------------------------------------
 // generators
 
-fn arb_sc(styles: &'static [Style]) -> impl Strategy<Value = Sc> {
+fn arb_sc(styles: &'static [Style]) -> impl Strategy<Value = Sc> + Clone + use<> {
     (prop::collection::vec(0u8..WORDS.len() as u8, 0..4), prop::sample::select(styles.to_vec())).prop_map(|(words, style)| Sc { words, style })
 }
 const VERBATIM_STYLES: [Style; 6] = [Style::Plain, Style::Single, Style::Double, Style::Tagged, Style::Anchored, Style::Alias];
 
-fn arb_bdoc() -> impl Strategy<Value = BDoc> {
+fn arb_bdoc() -> impl Strategy<Value = BDoc> + Clone + use<> {
     // half of the documents are verbatim everywhere, the others draw from all styles
     let items = prop_oneof![
         prop::collection::vec(arb_sc(&VERBATIM_STYLES), 0..7),
@@ -878,7 +886,7 @@ fn arb_bdoc() -> impl Strategy<Value = BDoc> {
 }
 
 /// Cfg documents with deviations (missing / unknown / mistyped fields, duplicates).
-fn arb_cfg_doc() -> impl Strategy<Value = String> {
+fn arb_cfg_doc() -> impl Strategy<Value = String> + Clone + use<> {
     let name = prop::sample::select(vec!["app", "\"quoted name\"", "naïve", "'it''s'", "日本 😀", "~", "123", ""]);
     let count = prop::sample::select(vec!["1", "-7", "0x1F", "1_000", "abc", "1.5", "99999999999999999999", "é"]);
     let ratio = prop::sample::select(vec!["1.5", ".inf", "-0.0", "2", "x", ".nan", "1e3"]);
@@ -948,7 +956,7 @@ fn arb_cfg_doc() -> impl Strategy<Value = String> {
 
 /// valid documents of assorted shapes from the shared G-doc generator, with multi-byte text
 /// substituted into some scalars
-fn arb_gdoc_text() -> impl Strategy<Value = String> {
+fn arb_gdoc_text() -> impl Strategy<Value = String> + Clone + use<> {
     (gdoc::arb_tree(3, 12), prop::collection::vec(any::<u16>(), 0..8), 0u32..4096, 0u8..8, any::<bool>()).prop_map(|(tree, script, lay, mb, anchors)| {
         let tree = if anchors { gdoc::decorate(&tree, &script, 15, 10, 0) } else { tree };
         let mut t = gdoc::render(&tree, &gdoc::Layout::from_bits(lay)).text;
@@ -1014,7 +1022,7 @@ enum SchedKind {
     AdversarialPlus(Vec<u16>),
     All,
 }
-fn arb_sched_kind() -> impl Strategy<Value = SchedKind> {
+fn arb_sched_kind() -> impl Strategy<Value = SchedKind> + Clone + use<> {
     prop_oneof![
         2 => Just(SchedKind::One),
         3 => prop::sample::select(vec![2usize, 3, 4, 5, 7]).prop_map(SchedKind::Fixed),
@@ -1053,7 +1061,7 @@ fn make_sched(kind: &SchedKind, text: &str) -> Sched {
     }
 }
 
-fn arb_text() -> impl Strategy<Value = String> {
+fn arb_text() -> impl Strategy<Value = String> + Clone + use<> {
     let base = prop_oneof![
         4 => arb_gdoc_text(),
         2 => arb_cfg_doc(),
@@ -1072,7 +1080,7 @@ fn arb_text() -> impl Strategy<Value = String> {
     })
 }
 
-fn arb_agree() -> impl Strategy<Value = Case> {
+fn arb_agree() -> impl Strategy<Value = Case> + Clone + use<> {
     (arb_text(), prop::sample::select(TGTS.to_vec()), 0u8..(2 * N_OPTS), arb_sched_kind()).prop_map(|(doc, target, o, sk)| {
         let sched = make_sched(&sk, &doc);
         // half of the cases use the plain entry points
@@ -1080,7 +1088,7 @@ fn arb_agree() -> impl Strategy<Value = Case> {
         Case::Agree { doc, target, opts, sched }
     })
 }
-fn arb_bom() -> impl Strategy<Value = Case> {
+fn arb_bom() -> impl Strategy<Value = Case> + Clone + use<> {
     (arb_text(), prop::sample::select(TGTS.to_vec()), arb_sched_kind()).prop_map(|(doc, target, sk)| {
         let doc = doc.trim_start_matches(BOM).to_string();
         let with = format!("{BOM}{doc}");
@@ -1254,7 +1262,8 @@ fn empty_tag_suffix(doc: &str) -> bool {
         if j < b.len() && b[j] == b'!' {
             match b.get(j + 1) {
                 None => return true,
-                Some(c) if matches!(c, b' ' | b'\t' | b'\n' | b'\r' | b',' | b'[' | b']' | b'{' | b'}') => return true,
+                // (NUL ends the input for the scanner, like the end of the text)
+                Some(c) if matches!(c, b' ' | b'\t' | b'\n' | b'\r' | b',' | b'[' | b']' | b'{' | b'}' | 0) => return true,
                 _ => {}
             }
         }
@@ -1453,6 +1462,40 @@ impl Property for C09 {
         out
     }
 
+    /// libFuzzer input: kind (agree / bom), target, options, schedule, then the document text
+    fn fuzz_decode(data: &[u8]) -> Option<(&'static str, Case, bool)> {
+        let mut b = engine::Bytes::new(data);
+        let bom = b.below(4) == 0;
+        let target = b.pick(&TGTS);
+        let o = b.below(2 * N_OPTS as usize) as u8;
+        let opts = if o >= N_OPTS { 0 } else { o };
+        let sk = match b.below(6) {
+            0 => SchedKind::One,
+            1 => SchedKind::Fixed(b.pick(&[2usize, 3, 4, 5, 7])),
+            2 => {
+                let n = b.below(12);
+                SchedKind::Random((0..n).map(|_| b.u16()).collect())
+            }
+            3 | 4 => SchedKind::Adversarial,
+            _ => {
+                let n = 1 + b.below(5);
+                SchedKind::AdversarialPlus((0..n).map(|_| b.u16()).collect())
+            }
+        };
+        let doc = String::from_utf8_lossy(b.take(240)).into_owned();
+        let c = if bom {
+            let doc = doc.trim_start_matches(BOM).to_string();
+            let with = format!("{BOM}{doc}");
+            Case::Bom { sched: make_sched(&sk, &with), doc, target }
+        } else {
+            Case::Agree { sched: make_sched(&sk, &doc), doc, target, opts }
+        };
+        if iofault::percent_tail(case_text(&c).as_bytes()) || matches!(&c, Case::Agree { doc, .. } | Case::Bom { doc, .. } if iofault::percent_tail(doc.as_bytes())) {
+            return None; // reader hang of the parser dependency (open C01 finding)
+        }
+        let nt = nontrivial(&c);
+        Some((if bom { "fuzz-bom" } else { "fuzz-agree" }, c, nt))
+    }
     fn generate(ctx: &mut Ctx<Self>) {
         let thorough = ctx.tier == engine::Tier::Thorough;
         let mut idx = 0u64;
@@ -1604,4 +1647,10 @@ fn main() {
         return;
     }
     engine::main::<C09>()
+}
+
+/// entry point of the libFuzzer target `fuzz/fuzz_targets/c09.rs`
+#[allow(dead_code)]
+pub fn fuzz(data: &[u8]) {
+    engine::fuzz_one::<C09>(data)
 }
